@@ -171,6 +171,8 @@ class ScheduledTraceEvent(AppTraceEvent):
 
     @property
     def event_data(self):
+        if self.why is None:
+            return self.where
         return '%s:%s' % (self.where, self.why)
 
 
